@@ -39,6 +39,7 @@ EXPLANATION = (
     '(runtime).')
 ASSUMPTIONS = [phys.POSITIVITY_TEXT, "mean quantities (density, compressibility, mean temperature) are symmetric under branch reversal"]
 TECHNIQUE = "substitution in rational normal forms of the kernels; per-class value numbering of pit construction"
+EXPLANATION += (' ' + '(R9.10, shared with C04 R4.12) out of service is equivalent to absent also in the per-junction multiplicities (counting groupings take in-service rows only).')
 
 P_FROM, P_TO, DH = ("sym", "p_init_i_abs"), ("sym", "p_init_i1_abs"), ("sym", "height_difference")
 M_ATOM = ("sym", "col", "branch_pit", "i", "idx_branch", "MDOTINIT")
